@@ -428,7 +428,14 @@ fn pool_alphabet(n: &Node, cfg: &AlphaCfg) -> Vec<(String, Transaction, bool)> {
                             o2.push(out_t(carrier.1.coin_data.value.0, Denom::Mel));
                         }
                     }
-                    out.push((format!("deposit-small[{}]", pname), tx_t(TxKind::LiqDeposit, ins, o2, 0, k.to_bytes().to_vec()), true));
+                    out.push((format!("deposit-small[{}]", pname), tx_t(TxKind::LiqDeposit, ins.clone(), o2.clone(), 0, k.to_bytes().to_vec()), true));
+                    // where the wallet's second coins are large too (the huge-amount worlds): a second *large* deposit of another size,
+                    // so that two deposits whose weights both exceed 64 bits share a block
+                    if lv > (1 << 64) && rv > (1 << 64) {
+                        let mut o3 = vec![out_t(lv, k.left()), out_t(rv / 2, k.right()), out_t(rv - rv / 2, k.right())];
+                        o3.extend(o2.iter().skip(4).cloned());
+                        out.push((format!("deposit-second-large[{}]", pname), tx_t(TxKind::LiqDeposit, ins, o3, 0, k.to_bytes().to_vec()), true));
+                    }
                 }
             }
         }
